@@ -464,7 +464,7 @@ def run(tier, seed, pid='C06'):
     rep = Report(pid, tier, seed, 'model_checking')
     common.build_mmdump()
     mirs = common.prog_mirs(('mimium_cli',))
-    files = [f for f in common.corpus_files(['st', 'ct', 'cl', 'gn', 'fx'], tier, seed)]
+    files = [f for f in common.corpus_files(['st', 'ct', 'cl', 'fi', 'gn', 'fx'], tier, seed)]
     ldir = os.path.join(common.VERIF, 'corpus_large')       # states > 2^16 words, analysed in sparse mode (see SwapAnalysis.explore)
     if pid == 'C06' and os.path.isdir(ldir) and not os.environ.get('VERIF_ONLY'):
         files += [os.path.join(ldir, fn) for fn in sorted(os.listdir(ldir)) if fn.endswith('.mmm')]
